@@ -1221,8 +1221,8 @@ class TmpStore:
     def _getCleanFilename(self, oid, tid):
         return os.path.join(
             self._getBlobPath(),
-            "{}-{}{}".format(utils.oid_repr(oid), utils.tid_repr(tid),
-                             SAVEPOINT_SUFFIX)
+            "{}-{}-{}{}".format(utils.oid_repr(oid), utils.tid_repr(tid),
+                                self.index.get(oid, 0), SAVEPOINT_SUFFIX)
         )
 
     def temporaryDirectory(self):
